@@ -224,6 +224,17 @@ theorem let_result_invariant (σ : World) (parent : Option String) (p p' : Input
     exact SameUpToNames.refl _
   exact h2.1
 
+
+/-- **…and for the code the macro expands to**: two invocations whose branches and handler are the same token for token and
+    which differ only in their `let` names (other names, fewer, none), against user code that does not read the names,
+    expand to codes with the same outcome — value, failure or panic. -/
+theorem generated_let_invariant (σ : World) (parent : Option String) (p p' : Input) (kind : Kind) (code code' : Code)
+    (hb : NameBlind σ) (hm : p'.branches.map (·.members) = p.branches.map (·.members)) (hh : p'.handler = p.handler)
+    (hs : Supported p kind) (hs' : Supported p' kind) (hgen : gen p kind = .ok code) (hgen' : gen p' kind = .ok code') :
+    (evalCode σ parent code).res = (evalCode σ parent code').res := by
+  rw [generated_eq_reference σ parent p kind code hs hgen, generated_eq_reference σ parent p' kind code' hs' hgen']
+  exact let_result_invariant σ parent p p' kind hb hm hh
+
 /-- Non-vacuity of `NameBlind`: a world whose user code ignores the names satisfies it; one whose chains look at the
     names in scope does not — the hypothesis of `let_result_invariant` separates the two. -/
 def blindWorld : World where
